@@ -49,6 +49,13 @@ func (c cutExpr) expr() expr.Expr {
 	}
 
 	ex := c.ex
+	if c.begin >= ex.Width() {
+		// All requested bytes lie above ex, i.e. in its zero extension. A
+		// shift by begin*8 bits might not be representable in ex.Width()
+		// bytes there.
+		return expr.NewConstUint[uint8](0, c.end-c.begin)
+	}
+
 	if c.begin > 0 {
 		shift := expr.ConstFromUint(uint16(c.begin) * 8)
 		ex = expr.NewBinary(expr.Rsh, ex, shift, ex.Width())
